@@ -1,0 +1,32 @@
+//go:build verif
+
+package operator
+
+import (
+	"time"
+
+	"reduction.dev/reduction/partitioning"
+)
+
+// Accessors for the verification harness (/verif). Compiled only with -tags verif.
+
+func VerifEncodeDBKey(ks *partitioning.KeySpace, subjectKey []byte, namespace string, data []byte) []byte {
+	return (&KeyedStateStore{keySpace: ks}).encodeDBKey(subjectKey, namespace, data)
+}
+
+func VerifEncodeSubjectKey(ks *partitioning.KeySpace, subjectKey []byte) []byte {
+	return (&KeyedStateStore{keySpace: ks}).encodeSubjectKey(subjectKey)
+}
+
+func VerifDecodeKey(compositeKey []byte) (namespace, data []byte) {
+	return (&KeyedStateStore{}).decodeKey(compositeKey)
+}
+
+func VerifEncodeTimerKey(ks *partitioning.KeySpace, subjectKey []byte, t time.Time) []byte {
+	_, key := (&TimerStore{keySpace: ks}).encodeTimerKey(subjectKey, t)
+	return key
+}
+
+func VerifOwnsKey(r partitioning.KeyGroupRange, key []byte) bool {
+	return newOperatorPartition(r, nil).OwnsKey(key)
+}
